@@ -284,7 +284,7 @@ pub fn run(p: &Params) -> Report {
         let prev_speed = *r.pick(&[1u128, 5, 50]);
         let mut fab = Fab::new(net, h);
         fab.dosc_speed = prev_speed;
-        let n = 2 + r.usize(3);
+        let n = 2 + r.usize(5);
         let mut coins = vec![];
         for i in 0..n {
             let id = CoinID { txhash: TxHash(HashVal(r.arr32())), index: 0 };
@@ -320,26 +320,37 @@ pub fn run(p: &Params) -> Report {
             txs.push(tx);
         }
         let mut speeds = vec![];
-        for variant in 0..3 {
+        let pool1 = rayon::ThreadPoolBuilder::new().num_threads(1).build().unwrap();
+        let n_orders = 8;
+        for variant in 0..n_orders {
             let mut order = txs.clone();
             if variant == 1 {
                 order.reverse();
             }
-            if variant == 2 {
+            if variant >= 2 {
                 r.shuffle(&mut order);
             }
-            let mut st = sealed.next_unsealed();
-            rep.eval();
-            if let Ok(Ok(s)) = guarded(move || st.apply_tx_batch(&order).map(|_| st.seal(None).header().dosc_speed)) {
-                speeds.push(s);
+            if variant == 3 {
+                // fastest first
+                order.sort_by_key(|t| std::cmp::Reverse(stdcode::deserialize::<(u32, Vec<u8>)>(&t.data).map(|x| x.0).unwrap_or(0)));
+            }
+            for single in [true, false] {
+                let mut st = sealed.next_unsealed();
+                let o = order.clone();
+                rep.eval();
+                let run = move || st.apply_tx_batch(&o).map(|_| st.seal(None).header().dosc_speed);
+                let res = if single { guarded(|| pool1.install(run)) } else { guarded(run) };
+                if let Ok(Ok(s)) = res {
+                    speeds.push(s);
+                }
             }
         }
         rep.count("blocks with several mints");
         rep.nontrivial(fnv(&case_seed.to_be_bytes()));
-        if speeds.len() == 3 && (speeds.iter().any(|s| *s != max_speed)) {
+        if speeds.len() == 16 && (speeds.iter().any(|s| *s != max_speed)) {
             rep.violate("C18|dosc-speed-wrong|seal|several-mints-in-block", format!("dosc_speed after a block with {} mints is {:?}, expected the maximum {}", n, speeds, max_speed), json!({"case_seed": case_seed, "txs_hex": txs.iter().map(tx_hex).collect::<Vec<_>>()}));
         }
-        if speeds.len() != 3 {
+        if speeds.len() != 16 {
             rep.violate("C18|valid-mint-rejected|apply_tx_batch|several-mints-in-block", "a batch of valid zero-ERG mints was rejected".into(), json!({"case_seed": case_seed, "k": k}));
         }
     }
